@@ -785,12 +785,13 @@ def plan(quick: bool) -> list[dict]:
         cmax("mem", 1, 2, 1, keep=True)
         nd = 1
     else:
+        # lists of four operands: mem18 and time; the other pools stop at three (mixed2: two) to keep the budget
         cmax("ints", 1, 3, 40)
-        cmax("mixed", 1, 4, 24, keep=True)
-        cmax("mixed2", 1, 3, 36, keep=True)
         cmax("mem18", 4, 4, 19)
         cmax("mem", 1, 3, 12, keep=True)
         cmax("time", 1, 4, 13, keep=True)
+        cmax("mixed", 1, 3, 4, keep=True)
+        cmax("mixed2", 1, 2, 2, keep=True)
         nd = 6
     jobs += [{"mode": "defaults", "thorough": th, "shard": sh, "nshards": nd} for sh in range(nd)]
     jobs += [{"mode": "dict", "thorough": th}, {"mode": "update", "thorough": th}, {"mode": "ctor", "thorough": th}]
@@ -853,7 +854,7 @@ def run(ctx: Ctx) -> None:
         "case = one call of the real Resources API on operands taken from a universe defined in MC_Resources.tla: "
         "ctor (constructor arguments incl. invalid integers, exclusion violations, malformed memory/time strings), "
         "dict (dict/from_dict/to_slurm_options of every valid record), cmax (every operand list of length 1..3, "
-        "thorough 4, over the pools ints / mem {B..PB}x{1,1.5,2,10,512,1000} / time (12 strings in the 4 formats) / "
+        "thorough 4 for mem/time, over the pools ints / mem {B..PB}x{1,1.5,2,10,512,1000} / time (12 strings in the 4 formats) / "
         "mixed), defaults (receiver x defaults), update (receiver x kwargs), hist (every combinator call sequence "
         "of length Depth, plus seeded random longer ones); non-trivial = ctor: some argument set; cmax: two "
         "operands set the same quantity differently; defaults: some quantity set on both sides and some only on "
